@@ -131,8 +131,39 @@ async def scenario(sh: Shard, rig, r, label, ncmd):
         devices.append(("eco", facade.eco_mode))
     heater = facade.water_heater
     for step in range(ncmd):
-        choices = ["watercare", "temp", "unit"] + (["device"] * 4 if devices else [])
+        choices = ["watercare", "watercare-during-update", "temp", "unit"] + (["device"] * 4 if devices else [])
         k = r.choice(choices)
+        if k == "watercare-during-update":
+            # the command is issued while the facade's own periodic watercare query is in flight
+            # (any device change wakes that loop): afterwards the facade must show the new mode
+            from geckolib.config import set_config_mode
+
+            await rig.quiesce(settle=0.25)
+            cur = facade.water_care.mode
+            mode = (cur + r.randrange(1, 5)) % 5 if isinstance(cur, int) and 0 <= cur < 5 else r.randrange(5)
+            d0 = len(w.net.dgrams)
+            set_config_mode(any(bool(d.is_on) for d in facade.all_config_change_devices))  # wakes the update loop, table unchanged
+            await asyncio.sleep(r.choice([0.0, 0.002, 0.02, 0.05, 0.08]))
+            inflight = any(d.dir == "c2s" and d.verb == "GETWC" for d in w.net.dgrams[d0:])
+            exc = None
+            try:
+                await facade.water_care.async_set_mode(mode)
+            except Exception as e:  # noqa
+                exc = e
+            await rig.quiesce(settle=0.4)
+            sent = [d for d in w.net.dgrams[d0:] if d.dir == "c2s" and d.verb == "SETWC"]
+            sh.evaluations += 1
+            sh.count("watercare_during_update" + ("_query_in_flight" if inflight else ""))
+            wit = {"scenario": label, "command": ("watercare.set_mode", mode, "during facade update"), "query_in_flight": inflight, "snapshot": rig.snapshot_name}
+            if exc is not None:
+                sh.violation("C13:raise:watercare.set_mode", f"watercare command during the facade update raised {exc!r}", dict(wit, exc=describe_exc(exc)))
+            elif len(sent) != 1:
+                sh.violation("C13:command-count:watercare.set_mode", f"{len(sent)} SETWC datagrams for one watercare command issued during the facade update", wit)
+            elif sim.sim.watercare_mode != mode or facade.water_care.mode != mode:
+                sh.violation("C13:watercare-effect", f"watercare mode {mode} commanded while the facade's own query was outstanding: spa mode {sim.sim.watercare_mode}, facade mode {facade.water_care.mode}", wit)
+            else:
+                sh.count("commands_checked")
+            continue
         if k == "device":
             typ, dev = r.choice(devices)
             sh.see("device_kinds", typ)
@@ -201,7 +232,10 @@ def shard(sh: Shard, seed, lo, hi, ncmd, snaps):
                     return
                 rig.cancel_tasks(("SPA:Refresh loop",))
                 w.set_regime(r.choice(["B", "J"]))
-                await scenario(sh, rig, r, label, ncmd)
+                # one long-lived connection per run: enough commands for the command counter to wrap twice
+                await scenario(sh, rig, r, label, 190 if idx == 0 else ncmd)
+                if idx == 0:
+                    sh.count("long_connection_scenarios")
 
             try:
                 w.run(main())
@@ -248,6 +282,8 @@ def main(tier, seed):
         run.extra["threaded_part"] = "not built yet"
     run.need(run.counters.get("commands_checked", 0) > 300, "too few commands checked")
     run.need(run.counters.get("idempotent_calls_checked", 0) > 40, "too few already-in-state calls checked")
+    run.need(run.counters.get("watercare_during_update_query_in_flight", 0) > 20, "too few watercare commands issued while the facade's own query was in flight")
+    run.need(run.counters.get("long_connection_scenarios", 0) >= 1, "the long-lived connection scenario (command counter wrap) did not run")
     for k in ("pump", "light", "eco"):
         run.need(k in run.sets.get("device_kinds", set()), f"no {k} command exercised")
     return run.finish(
